@@ -3,7 +3,7 @@ import MuduoVerif.Proofs.TPoolA
 namespace MuduoVerif.Monitor
 
 def isWorkerPc : PPc → Bool
-  | .wTest | .wTake | .wExec _ | .wDone => true
+  | .wTest | .wTake | .wExec _ | .wGate _ | .wDone => true
   | _ => false
 
 /-- where a task may be executed -/
@@ -31,9 +31,10 @@ theorem pc_upd {s : PState} (h : PC s) {t : Nat} {p : PPc} (hw : isWorkerPc p = 
     (evs : List PEv) (hplace : ∀ e, e ∈ evs → EvPlace s.n e)
     (hquiet : (∃ u, PEv.stopRet u ∈ evs) → 0 < s.n → running' = false ∧ ∀ w, 1 ≤ w → w ≤ s.n → w ≠ t → s.pc w = .wDone)
     (hquiet2 : (∃ u, PEv.stopRet u ∈ evs) → 0 < s.n → 1 ≤ t → t ≤ s.n → p = .wDone)
-    (toMon' : Mon) (q' : List Task) (nacc' : Nat) (prog' : Nat → List POp) (log' : List PEv) (hlog : log' = s.log ++ evs) :
+    (toMon' : Mon) (q' : List Task) (nacc' : Nat) (prog' : Nat → List POp) (log' : List PEv) (hlog : log' = s.log ++ evs)
+    {gate' : Bool} :
     PC { toMon := toMon', n := s.n, maxq := s.maxq, running := running', q := q', nacc := nacc', pc := upd s.pc t p,
-         prog := prog', log := log' } := by
+         prog := prog', log := log', kind := s.kind, gate := gate' } := by
   subst hlog
   have hoff : s.running = false → running' = false := by
     intro hr; rcases hrun with h1 | h1
@@ -114,11 +115,21 @@ theorem pc_step {s s' : PState} (ha : PA s) (h : PC s) (hs : PStep s s') : PC s'
     have hn : (∃ u, PEv.stopRet u ∈ [PEv.took t x]) → 0 < s.n → False := nos (by simp)
     exact pc_upd h (by rw [hpc]; rfl) (by rw [hpc]; intro hc; cases hc) s.running (Or.inl rfl) (by intro hc; cases hc)
       (by intro i hc; cases hc) [.took t x] (by simp [EvPlace]) (fun a b => (hn a b).elim) (fun a b => (hn a b).elim) _ _ _ _ _ rfl
-  | exec t x hpc =>
+  | exec t x p g hpc hp =>
     have hwk : 1 ≤ t ∧ t ≤ s.n := (h.workers t).mp (by rw [hpc]; rfl)
     have hn : (∃ u, PEv.stopRet u ∈ [PEv.exec t x]) → 0 < s.n → False := nos (by simp)
+    exact pc_upd h (by rw [hpc]; rcases hp with rfl | ⟨rfl, _⟩ <;> rfl) (by rw [hpc]; intro hc; cases hc) s.running (Or.inl rfl)
+      (by intro hc; rcases hp with rfl | ⟨rfl, _⟩ <;> cases hc)
+      (by intro i hc; rcases hp with rfl | ⟨rfl, _⟩ <;> cases hc) [.exec t x] (by simpa [EvPlace] using hwk) (fun a b => (hn a b).elim)
+      (fun a b => (hn a b).elim) _ _ _ _ _ rfl
+  | pass t x hpc hg =>
+    have hn : (∃ u, PEv.stopRet u ∈ [PEv.pass t x]) → 0 < s.n → False := nos (by simp)
     exact pc_upd h (by rw [hpc]; rfl) (by rw [hpc]; intro hc; cases hc) s.running (Or.inl rfl) (by intro hc; cases hc)
-      (by intro i hc; cases hc) [.exec t x] (by simpa [EvPlace] using hwk) (fun a b => (hn a b).elim) (fun a b => (hn a b).elim) _ _ _ _ _ rfl
+      (by intro i hc; cases hc) [.pass t x] (by simp [EvPlace]) (fun a b => (hn a b).elim) (fun a b => (hn a b).elim) _ _ _ _ _ rfl
+  | openGate t rest hpc hp =>
+    have hn : (∃ u, PEv.stopRet u ∈ [PEv.openRet t]) → 0 < s.n → False := nos (by simp)
+    exact pc_upd h (by rw [hpc]) (by rw [hpc]; intro hc; cases hc) s.running (Or.inl rfl) (by intro hc; cases hc)
+      (by intro i hc; cases hc) [.openRet t] (by simp [EvPlace]) (fun a b => (hn a b).elim) (fun a b => (hn a b).elim) _ _ _ _ _ rfl
   | runInline t id rest hpc hp hn0 =>
     have hn : (∃ u, PEv.stopRet u ∈ [PEv.inl t id, PEv.runRet t id]) → 0 < s.n → False := nos (by simp)
     exact pc_upd h (by rw [hpc]) (by rw [hpc]; intro hc; cases hc) s.running (Or.inl rfl) (by intro hc; cases hc)
